@@ -9,6 +9,8 @@ import importlib.util
 import json
 import sys
 
+from vf.paths import REPO
+
 
 def load(path, modname='vf_harness'):
     spec = importlib.util.spec_from_file_location(modname, path)
@@ -28,7 +30,7 @@ def main(argv):
     def prof(frame, event, arg):
         if event == 'call':
             fn = frame.f_code.co_filename
-            if '/rbql' in fn and fn.startswith('/repo/'):
+            if '/rbql' in fn and fn.startswith(REPO + '/'):
                 funcs.add(fn.split('/')[-1] + ':' + frame.f_code.co_name)
             elif fn == '<main loop>':
                 funcs.add('<generated main loop>:' + frame.f_code.co_name)
